@@ -269,6 +269,8 @@ def run(ctx):
                 ctx.assumptions.append(note)
         nf = marshal.rule_foot_and_pair(ctx, cfg, prog)
         ctx.floor('R-FOOT footprint cases[%s]' % cfg, nf, 30)
+        nsb = marshal.rule_subbuffer(ctx, cfg, prog)
+        ctx.floor('R-SUBBUF sites[%s]' % cfg, nsb, 10)
         nl = marshal.rule_len(ctx, cfg, prog)
         ctx.floor('R-LEN functions[%s]' % cfg, nl, 4)
         import os
